@@ -802,6 +802,12 @@ func (vfs *MemFS) Rename(oldpath, newpath string) error {
 			return &os.LinkError{Op: op, Old: oldpath, New: newpath, Err: nErr}
 		}
 
+		if o, n := oPI.Path(), nPI.Path(); len(n) > len(o) && len(o) > 0 && n[:len(o)] == o &&
+			(avfs.IsPathSeparator(vfs, o[len(o)-1]) || avfs.IsPathSeparator(vfs, n[len(o)])) {
+			// a directory can't be moved below itself.
+			return &os.LinkError{Op: op, Old: oldpath, New: newpath, Err: vfs.err.InvalidArgument}
+		}
+
 	case *fileNode:
 		if nChild == nil {
 			break
